@@ -55,7 +55,11 @@ let strip_route toks = match toks with
   | _ -> toks
 let get_type t = match t with
   | "CStr" -> TString | "None" -> TBad (cstr "Nothing") | _ -> dec_type t
-let parse toks = match strip_route toks with
+(* a leading @<h> names the live handle the harness goes through: the model has one property *)
+let strip_handle toks = match toks with
+  | h :: r when OStr.length h >= 2 && h.[0] = '@' -> r
+  | _ -> toks
+let parse toks = match strip_route (strip_handle toks) with
   | ["new_t"; t] -> NewT (dec_type t)
   | ["new_v"; v] -> NewV (dec_val v)
   | "new_vs" :: r -> NewVs (dec_vals r)
